@@ -22,7 +22,7 @@ const VerifDir = "/verif"
 type PropConfig struct {
 	ID            string        `json:"id"`
 	Packages      []string      `json:"packages"`
-	Functions     []string      `json:"functions,omitempty"` // optional explicit list; default: all contracts in zz_verif_<id>.go files
+	Functions     []string      `json:"functions,omitempty"`   // optional explicit list; default: all contracts in zz_verif_<id>.go files
 	Instantiate   []string      `json:"instantiate,omitempty"` // generic types whose methods are loaded as instances ("pkg.Type[int64]")
 	Inline        []string      `json:"inline,omitempty"`
 	NoInline      []string      `json:"noinline,omitempty"`
